@@ -31,6 +31,9 @@ _next_conn = [0]
 class Listener:
     """Default listener: does nothing.  Subclass and override."""
 
+    def connect_before(self, path):
+        pass
+
     def sql_before(self, conn, sql, params):
         pass
 
@@ -121,6 +124,12 @@ class Conn(sqlite3.Connection):
 
 def _connect(*args, **kwargs):
     kwargs.setdefault('factory', Conn)
+    lst = _listener
+    if lst is not None:
+        try:
+            lst.connect_before(os.fspath(args[0]) if args else kwargs.get('database'))      # (the database file is created here)
+        except TypeError:
+            pass
     con = _real_connect(*args, **kwargs)
     try:
         con._verif_path = os.fspath(args[0]) if args else kwargs.get('database')
